@@ -43,6 +43,8 @@ def gen_case(rng, tier):
     elif c < 0.45:
         case['ctx'] = 'roll'
         case['w'] = rng.choice([1, 2, 3, 4, 5])
+    elif c < 0.55:
+        case['ctx'] = 'group2'
     return case
 
 
@@ -50,6 +52,10 @@ def _cases(tier, rng):
     yield {'kind': 'dual', 'term': [['take', 2], ['count', False]], 'items': [{'t': [0, 5]}, {'t': [1, 6]}, {'t': [0, 7]}, {'t': [0, 8]}, {'t': [1, 9]}]}
     yield {'kind': 'dual', 'term': [['map', ['none_if_mod', 2, 0]], ['assert1', 'ne']], 'items': [{'t': [0, 2]}, {'t': [0, 2]}, {'t': [0, 3]}]}
     yield {'kind': 'dual', 'term': [['filter', ['truthy_int']], ['count', False]], 'items': [{'t': [0, 1]}, {'t': [0, 2]}, {'t': [0, 3]}]}
+    yield {'kind': 'dual', 'term': [['count', False]], 'ctx': 'group2',
+           'items': [{'t': [0, 5]}, {'t': [1, 6]}, {'t': [0, 7]}, {'t': [2, 8]}, {'t': [1, 9]}, {'t': [2, 1]}, {'t': [0, 2]}]}
+    yield {'kind': 'dual', 'term': [['duc', None], ['take', 3], ['sum', None, True]], 'ctx': 'group2',
+           'items': [{'t': [0, 5]}, {'t': [1, 6]}, {'t': [0, 7]}, {'t': [1, 6]}, {'t': [1, 9]}, {'t': [0, 7]}, {'t': [0, 2]}]}
     # tee_map with branches of unequal cadence inside contexts that serve successive groups from the same slot
     odd = ['filter', ['mod_eq', 2, 1]]
     for join in ('zip', 'combine_latest', 'merge'):
@@ -72,6 +78,10 @@ def mux_term(case):
         return [['split', ['nth', 0], inner]]
     if ctx == 'roll':
         return [['roll', case['w'], case['w'], inner]]
+    if ctx == 'group2':
+        # a group_by nested in a group_by (same key: every outer group has one inner group; the outer groups are interleaved, so
+        # several mapper dicts of the inner group_by are live at once and their groups must get distinct indices)
+        return [['group_by', ['nth', 0], [['group_by', ['nth', 0], inner]]]]
     return [['group_by', ['nth', 0], inner]]
 
 
@@ -236,4 +246,7 @@ def cases(tier, rng):
 
 
 def oracle(case, r):
-    return muxprop.prelude_violation(case, r) or _oracle(case, r)
+    v = muxprop.prelude_violation(case, r)
+    if v or case.get('share'):
+        return v        # the shared-operator variant wraps the pipeline in a tee_map: judged against separately built operators only
+    return _oracle(case, r)
